@@ -4,7 +4,10 @@
   ValidateWf,ValidateImage}.lean and, for the follow-up wp-c09b (image-level detection for every protected
   node, validate on saved images, `regionsValid`), in Uefi/{ValidateLocal,ValidateLocalFv,ValidateScan,
   ValidatePath,ValidateTree,ValidateSample,ValidateWitnessA,ValidateWitnessB,ValidateSaved,ValidateBridgeCore,
-  ValidateBridge,ValidateRegions,ValidateGrammar}.lean (definitions only: ValidateLoc.lean).  All statements are unbounded: every image of the reference grammar, every byte
+  ValidateBridge,ValidateRegions,ValidateGrammar}.lean (definitions only: ValidateLoc.lean), and for the
+  follow-up wp-c09c (validate on what the tool saved after ANY edit sequence; detection in the stored payload
+  of GUID-defined sections) in Uefi/ValidateEdit{Node,Tree,Top,Conv,Run,Sample,SampleFlash*,SampleGrow,Stored,StoredIn}.lean
+  (definitions only: ValidateEditDef.lean).  All statements are unbounded: every image of the reference grammar, every byte
   string, every alteration position, every replacement value, every path into the tree.
 
   Model: `validate : Tree → St → List VErr` (FianoModel/Uefi/Validate.lean) = `visitors.Validate.Run` with
@@ -26,6 +29,13 @@ import FianoModel.Uefi.ValidateBridge
 import FianoModel.Uefi.ValidateRegions
 import FianoModel.Uefi.ValidateGrammar
 import FianoModel.Uefi.CodeTie   -- T1 code-as-code tie (wp-t1x): audited as a tie module of this check
+import FianoModel.Uefi.ValidateEditRun          -- wp-c09c: validate_saved for a whole edited tree
+import FianoModel.Uefi.ValidateEditSample
+import FianoModel.Uefi.ValidateEditSampleFlash
+import FianoModel.Uefi.ValidateEditSampleGrow
+import FianoModel.Uefi.ValidateEditConv         -- wp-c09c: extraB is implied by a clean validate
+import FianoModel.Uefi.ValidateEditStored       -- wp-c09c: detection in the stored payload of GUID-defined sections
+import FianoModel.Uefi.ValidateEditStoredIn
 
 namespace Fiano.Props.C09
 open Fiano Fiano.Uefi Fiano.Uefi.Spec
@@ -509,5 +519,213 @@ open Fiano.Uefi.C09 in
     and satisfies `SoundCore` (kernel evaluation) -/
 theorem c09_sample_soundCore : WF deepFlash ∧ SoundCore deepFlash :=
   ⟨by decide +kernel, ⟨by decide +kernel, by decide +kernel⟩⟩
+
+/-! ## C09a, second half, closed: validate on what the tool saved after an edit sequence (follow-up wp-c09c)
+
+  Full statement of DESIGN §7 (`validate_saved`): for every image and every command sequence, if the run
+  succeeds, validate reports nothing on the saved image.  Proved below **for the re-parsed saved image** (what
+  `utk saved.rom validate` does), by composing C02's central theorem `edits_valid` (every image written passes
+  the independent reader `Valid.validImage`) with the bridge
+
+      validImage bs  ∧  uefi.Parse bs = (t, st)  ∧  readAlikeB t  ∧  extraB t st   ⇒   validate t st = []
+
+  (`c09_validImage_validates`).  It is NOT stated for the in-memory tree after `Assemble`: C02's invariant
+  does not say that the fields of a rebuilt node are those of its new bytes.  The hypotheses are decidable
+  predicates on the re-parsed tree, collected in `reparseB`:
+    * the parse of the saved image succeeds (`validImage ⇒ parse succeeds` is not proved: a codec may refuse
+      what it is handed; sections of unlisted types; …);
+    * `readAlikeB` — fiano read the headers as the specification does (C02's hypothesis, here on the output);
+    * `extraB` — the checks validate makes that the reader does not: revision 2 and a known file-system GUID
+      of every volume, polarity of the top-level volumes = the process-wide one, valid region entries, a volume
+      in the BIOS region, descriptor-map bases, and clean children below GUID-defined sections (decoded bytes
+      are not image bytes; neither the reader nor C02's invariant speaks about them).
+  That these hold on the output whenever they hold on the input (a preservation proof over all operations) is
+  what remains open; the oracle `saved-validates` of the harness watches it on the implementation. -/
+
+/-- **what C02's independent reader accepts, validate accepts** — on the tree `uefi.Parse` builds from those
+    bytes, from any process state and with any recursion budget; every image below 256 MiB, flash images
+    with descriptor and bare BIOS regions, volumes nested to any depth.  Hypotheses: `readAlikeB t` (fiano
+    read the headers as the specification does) and `extraB t st'` (the checks validate makes beyond the
+    reader, FianoModel/Uefi/ValidateEditDef.lean); the laws of the hooks (`BoundedCodecs`, `NvLaw`). -/
+theorem c09_validImage_validates (h : Hooks) (hb : h.BoundedCodecs) (hlaw : h.NvLaw) (fuel : Nat) (bs : Bytes)
+    (st st' : St) (t : Tree) (hp : parseWith h fuel bs st = .ok (t, st')) (hv : Valid.validImage bs = true)
+    (hL : bs.length < 65536 * 4096) (hRA : readAlikeB t = true) (hx : Fiano.Uefi.C09.extraB t st' = true) :
+    validate t st' = [] :=
+  Fiano.Uefi.C09.ve_validImage_validates h hb hlaw fuel bs st st' t hp hv hL hRA hx
+
+/-- … as one statement about parse + validate in a fresh process: `ok []` -/
+theorem c09_validImage_parseValidate (h : Hooks) (hb : h.BoundedCodecs) (hlaw : h.NvLaw) (b : Bytes)
+    (hv : Valid.validImage b = true) (hL : b.length < 65536 * 4096) (hre : Fiano.Uefi.C09.reparseB h b = true) :
+    parseValidate h b = .ok [] :=
+  Fiano.Uefi.C09.ve_parseValidate_clean h hb hlaw b hv hL hre
+
+/-- **`extraB` is the weakest hypothesis possible**: it is implied by the conclusion, for every tree and
+    state, with no assumption at all -/
+theorem c09_extraB_of_clean (t : Tree) (st : St) (h : validate t st = []) : Fiano.Uefi.C09.extraB t st = true :=
+  Fiano.Uefi.C09.ve_extra_of_clean t st h
+
+/-- … hence on an image the reader accepts, read as the specification reads it, **validate is clean iff
+    `extraB` holds**: `extraB` is exactly the part of validate that the reader's rules do not imply -/
+theorem c09_clean_iff_extraB (h : Hooks) (hb : h.BoundedCodecs) (hlaw : h.NvLaw) (fuel : Nat) (bs : Bytes)
+    (st st' : St) (t : Tree) (hp : parseWith h fuel bs st = .ok (t, st')) (hv : Valid.validImage bs = true)
+    (hL : bs.length < 65536 * 4096) (hRA : readAlikeB t = true) :
+    validate t st' = [] ↔ Fiano.Uefi.C09.extraB t st' = true :=
+  Fiano.Uefi.C09.ve_clean_iff_extra h hb hlaw fuel bs st st' t hp hv hL hRA
+
+/-- **C09a `validate_saved`, whole edited tree**: for every image the independent reader accepts (below
+    256 MiB) and every command line of the modelled operations — insert at front / end / after / before,
+    replace_ffs, insert pad_file, insert_dxe, remove, remove_pad, replace_pe32, saves between the edits,
+    read-only commands; the nested volume that grows by a block and the switch to FFSv3 included —, if `utk`
+    succeeds then **every image it wrote, parsed again and validated in a fresh process, gives `ok []`**,
+    provided that image is read again as the specification reads it (`reparseB`: the parse succeeds,
+    `readAlikeB`, `extraB`).  Other hypotheses: those of C02's `edits_valid` (on the *input*: `readAlikeB` of
+    its tree; `SpecOk` of the command line; the hooks laws). -/
+theorem c09_validate_saved_edits (h : Hooks) (hb : h.BoundedCodecs) (hlaw : h.NvLaw) (image : Bytes)
+    (specs : List OpSpec) (r : Run) (hu : utk h image specs = .ok r)
+    (hv : Valid.validImage image = true) (hL : image.length < 65536 * 4096)
+    (hspecs : ∀ s ∈ specs, SpecOk h s)
+    (hRA : ∀ ops st t st', cliParse h specs {} = .ok (ops, st) →
+      parseWith h (defaultFuel image) image st = .ok (t, st') → readAlikeB t = true) :
+    ∀ b ∈ r.outs, Fiano.Uefi.C09.reparseB h b = true → parseValidate h b = .ok [] :=
+  Fiano.Uefi.C09.ve_validate_saved h hb hlaw image specs r hu hv hL hspecs hRA
+
+/-- the same in tree form: on every image written, whatever state and budget it is parsed with -/
+theorem c09_validate_saved_edits_tree (h : Hooks) (hb : h.BoundedCodecs) (hlaw : h.NvLaw) (image : Bytes)
+    (specs : List OpSpec) (r : Run) (hu : utk h image specs = .ok r)
+    (hv : Valid.validImage image = true) (hL : image.length < 65536 * 4096)
+    (hspecs : ∀ s ∈ specs, SpecOk h s)
+    (hRA : ∀ ops st t st', cliParse h specs {} = .ok (ops, st) →
+      parseWith h (defaultFuel image) image st = .ok (t, st') → readAlikeB t = true) :
+    ∀ b ∈ r.outs, ∀ fuel st0 t st, parseWith h fuel b st0 = .ok (t, st) → readAlikeB t = true →
+      Fiano.Uefi.C09.extraB t st = true → validate t st = [] :=
+  Fiano.Uefi.C09.ve_validate_saved_tree h hb hlaw image specs r hu hv hL hspecs hRA
+
+/-- **`validate_saved` with `create-fv`** (C02 `edits_valid_createfv`): command lines that mix `create-fv` with
+    the modelled operations, every `create-fv` finding its state as `Guard2` / `CreateFvPre` asks -/
+theorem c09_validate_saved_edits_createfv (h : Hooks) (hb : h.BoundedCodecs) (hlaw : h.NvLaw) (image : Bytes)
+    (specs : List OpSpec2) (r : Run) (hu : utk2 h image specs = .ok r)
+    (hv : Valid.validImage image = true) (hL : image.length < 65536 * 4096)
+    (hspecs : ∀ s, .base s ∈ specs → SpecOk h s)
+    (hRA : ∀ ops st t st', cliParse2 h specs {} = .ok (ops, st) →
+      parseWith h (defaultFuel image) image st = .ok (t, st') → readAlikeB t = true)
+    (hG : ∀ ops st t st', cliParse2 h specs {} = .ok (ops, st) →
+      parseWith h (defaultFuel image) image st = .ok (t, st') → Guard2 h ops { tree := t, st := st' }) :
+    ∀ b ∈ r.outs, Fiano.Uefi.C09.reparseB h b = true → parseValidate h b = .ok [] :=
+  Fiano.Uefi.C09.ve_validate_saved_createfv h hb hlaw image specs r hu hv hL hspecs hRA hG
+
+open Fiano.Uefi.C09 SampleC04 in
+/-- **non-vacuity, bare BIOS image with a decoded GUID-defined section** (kernel evaluation): on C04's
+    264-byte sample image the command line `remove <1st driver> save replace_pe32 <2nd driver> MZ remove_pad
+    <2nd driver> save` succeeds and writes two images, both different from the input; all hypotheses of
+    `c09_validate_saved_edits` hold (`reparseB` on both outputs included), hence both validate cleanly -/
+theorem c09_sample_validate_saved : ∃ r, utk hooks sampleBios veSpecs = .ok r ∧ r.outs.length = 2 ∧
+    ∀ b ∈ r.outs, b ≠ sampleBios ∧ reparseB hooks b = true ∧ parseValidate hooks b = .ok [] :=
+  ve_sample_validate_saved
+
+open Fiano.Uefi.C09 in
+/-- **non-vacuity, flash image with a nested volume** (kernel evaluation, ≈ 2 min when rebuilt): on the 8 KiB
+    `deepFlash` the command line `remove <RAW file of the 1st volume> save remove_pad <the file of the NESTED
+    volume> save` succeeds and writes two images, both different from the input; all hypotheses hold, hence
+    both validate cleanly -/
+theorem c09_sample_validate_saved_flash : ∃ r, utk Hooks.none veFlash veFlashSpecs = .ok r ∧ r.outs.length = 2 ∧
+    ∀ b ∈ r.outs, b ≠ veFlash ∧ reparseB Hooks.none b = true ∧ parseValidate Hooks.none b = .ok [] :=
+  ve_flash_validate_saved
+
+open Fiano.Uefi.C09 in
+/-- **non-vacuity in the growing branch** (kernel evaluation): on the 579-byte `deepImg`, `insert_end <file of
+    the nested volume> <96-byte RAW file> save` succeeds; the nested volume (168 bytes, 64 free) cannot hold the
+    new file and **grows** to 200 bytes (`Length`, `Blocks[0].Count` rewritten; section, holder file, outer
+    volume rebuilt); all hypotheses of `c09_validate_saved_edits` hold — `SpecOk` of the inserted file
+    included —, hence the saved image validates cleanly -/
+theorem c09_sample_validate_saved_grow : ∃ r, utk Hooks.none veGrowImg veGrowSpecs = .ok r ∧ r.outs.length = 1 ∧
+    veNestedLen veGrowImg = some 168 ∧
+    ∀ b ∈ r.outs, veNestedLen b = some 200 ∧ reparseB Hooks.none b = true ∧ parseValidate Hooks.none b = .ok [] :=
+  ve_grow_validate_saved
+
+/-! ## C09b inside GUID-defined sections: the stored payload (follow-up wp-c09c)
+
+  Full statement wanted: altering a byte that *determines* a file inside a decompressed section is detected.
+  Those files are parsed from decoded bytes; which image byte determines which decoded byte is up to the
+  codec, so the statement has no model-level meaning beyond the stored bytes.  Proved: every **stored** byte
+  of a GUID-defined section — common header, sub-header, compressed payload — is a body byte of the enclosing
+  file(s); when one of them carries the checksum attribute it is a protected byte and detection follows from
+  `c09_alter_detected_image`.  Open: stored bytes under files without body checksum at every level (validate
+  has no check that covers them — the format's only protection there would be the section's own CRC32 /
+  the codec's integrity, which validate.go does not look at), and any statement about the decoded children. -/
+
+open Fiano.Uefi.C09 in
+/-- **`alter_detected` for the stored payload of a GUID-defined section**: the image parses and validates
+    cleanly; `path` selects a file `f` with the checksum attribute; byte `r` of `f` is a stored byte of its
+    `j`-th section, a GUID-defined one (`StoredGuidByte`: header, sub-header or compressed payload, behind
+    the file header and inside the file).  One alteration of that byte ⇒ the parser refuses the altered image
+    or validate reports an error — for every codec, whatever it decodes from the altered payload.
+    Hypotheses and exceptions: those of `c09_alter_detected_image`. -/
+theorem c09_alter_detected_stored_payload (h : Hooks) {b b' : Bytes} {t : Tree} {st : St} {path : Path} {il : ImgLoc}
+    {f : File} {j r : Nat}
+    (hparse : parseWith h (defaultFuel b) b {} = .ok (t, st)) (hval : validate t st = [])
+    (hloc : locTree t path = some il) (hreg : ∀ v ∈ il.loc.through, v.regular)
+    (htgt : il.loc.tgt = .file f) (hck : hasChecksum f.info.attrs = true) (hst : StoredGuidByte f j r)
+    (ha : Alter b b' (il.pos + r))
+    (hbig : b.length + 8 < 2 ^ 64)
+    (hflash : findSignature b' = findSignature b)
+    (hscan : ScanKept (b'.drop il.region) il.base il.vol (il.loc.off + r))
+    (hfree : ¬ FreeMarker b' il.pos) :
+    parseValidate h b' ≠ .ok [] :=
+  ve_alter_detected_stored h hparse hval hloc hreg htgt hck hst ha hbig hflash hscan hfree
+
+open Fiano.Uefi.C09 in
+/-- **non-vacuity** (kernel evaluation): `veGuidImg` = C04's sample image with the checksum attribute on the
+    driver whose only section is GUID-defined.  The path `[0, 1]` selects that driver at image offset 120;
+    file bytes 24 (section header), 30 (GUID of the sub-header), 44 (`DataOffset`), 50 and 63 (stored payload)
+    are `StoredGuidByte`s of a checksummed file, bytes 23 and 64 are not; all hypotheses of the theorem hold for
+    the five alterations; and with the sample codec the section has two decoded children and the image still
+    validates cleanly -/
+theorem c09_sample_stored_payload :
+    (whereIs veGuidImg [0, 1] == some (120, 0, 0) &&
+     veStoredB 24 && veStoredB 30 && veStoredB 44 && veStoredB 50 && veStoredB 63 && !veStoredB 64 && !veStoredB 23 &&
+     hyps veGuidImg [0, 1] 24 0 && hyps veGuidImg [0, 1] 30 0 && hyps veGuidImg [0, 1] 44 0 &&
+     hyps veGuidImg [0, 1] 50 1 && hyps veGuidImg [0, 1] 63 1) = true :=
+  ve_sample_stored
+
+open Fiano.Uefi.C09 in
+/-- **… with the side condition derived** (C04 `Faithful`: the sections of a parsed file lie behind its header
+    and inside it; paths never enter a GUID-defined section, so every node on the way is a window of the
+    image): `SectionByte f j r` = byte `r` of `f` lies in its `j`-th section and that section is GUID-defined.
+    Hypotheses: those of `c09_alter_detected_image` with the size bound `GoLen b` (a Go slice: < 2^63 bytes),
+    and the law `BoundedCodecs` of the hooks. -/
+theorem c09_alter_detected_stored_section (h : Hooks) (hb : h.BoundedCodecs) {b b' : Bytes} {t : Tree} {st : St}
+    {path : Path} {il : ImgLoc} {f : File} {j r : Nat}
+    (hparse : parseWith h (defaultFuel b) b {} = .ok (t, st)) (hval : validate t st = [])
+    (hloc : locTree t path = some il) (hreg : ∀ v ∈ il.loc.through, v.regular)
+    (htgt : il.loc.tgt = .file f) (hck : hasChecksum f.info.attrs = true) (hsec : SectionByte f j r)
+    (ha : Alter b b' (il.pos + r))
+    (hgo : GoLen b)
+    (hflash : findSignature b' = findSignature b)
+    (hscan : ScanKept (b'.drop il.region) il.base il.vol (il.loc.off + r))
+    (hfree : ¬ FreeMarker b' il.pos) :
+    parseValidate h b' ≠ .ok [] :=
+  ve_alter_detected_stored_section h hb hparse hval hloc hreg htgt hck hsec ha hgo hflash hscan hfree
+
+open Fiano.Uefi.C09 in
+/-- … and for the compressed payload proper (file byte 44 or later) the flash-signature condition and
+    `ScanKept` are automatic: what remains are `Fv.regular` on the path, `GoLen`, and the free-space exception -/
+theorem c09_alter_detected_stored_section_far (h : Hooks) (hb : h.BoundedCodecs) {b b' : Bytes} {t : Tree} {st : St}
+    {path : Path} {il : ImgLoc} {f : File} {j r : Nat}
+    (hparse : parseWith h (defaultFuel b) b {} = .ok (t, st)) (hval : validate t st = [])
+    (hloc : locTree t path = some il) (hreg : ∀ v ∈ il.loc.through, v.regular)
+    (htgt : il.loc.tgt = .file f) (hck : hasChecksum f.info.attrs = true) (hsec : SectionByte f j r) (h44 : 44 ≤ r)
+    (ha : Alter b b' (il.pos + r))
+    (hgo : GoLen b)
+    (hfree : ¬ FreeMarker b' il.pos) :
+    parseValidate h b' ≠ .ok [] :=
+  ve_alter_detected_stored_section_far h hb hparse hval hloc hreg htgt hck hsec h44 ha hgo hfree
+
+open Fiano.Uefi.C09 in
+/-- non-vacuity of `SectionByte` / `GoLen` (kernel evaluation): the GUID-defined section occupies file bytes
+    24 … 63 of the checksummed driver of `veGuidImg` -/
+theorem c09_sample_section :
+    (veSectionB 24 && veSectionB 47 && veSectionB 48 && veSectionB 63 && !veSectionB 23 && !veSectionB 64 &&
+     decide (GoLen veGuidImg)) = true :=
+  ve_sample_section
 
 end Fiano.Props.C09
